@@ -359,14 +359,14 @@ func checkC01(c *Ctx) {
 	// ---- (g) the opt-in analyses (types 22-28: class fields, const assignment, call parameter types, return counts,
 	// assignment and operator types, uncalled local functions) switched on through luahelper.json ----
 	optin := map[string]string{
-		"calls_plain":   "local function add(a, b) return a + b end\nadd(1, 2)\nadd(3, 4)\nprint(add(5, 6), add)\n",
-		"calls_typed":   "---@param a number\n---@param b string\n---@return number\nlocal function f(a, b) return a end\nf(1, \"x\")\nf(\"x\", 1)\nf(1)\nf(1, 2, 3)\nlocal r = f(nil, nil)\nprint(r)\n",
-		"calls_method":  "local t = {}\n---@param n number\nfunction t:m(n) return n end\nfunction t.s(a, b) return a, b end\nt:m(1)\nt:m(\"s\")\nt.s(t, 1)\nt.s()\nprint(t:m(2))\n",
-		"class_fields":  "---@class P\n---@field x number\n---@field name string\n\n---@type P\nlocal p = { x = 1, y = 2, name = 3 }\np.x = \"s\"\np.z = 1\n---@type P\nlocal q = {}\nq.name = p.x\nprint(p, q)\n",
-		"const_assign":  "local c <const> = 1\nc = 2\nlocal d <close> = nil\nd = c\n---@type number\nlocal n = 1\nn = \"s\"\nn = {}\nn = nil\nprint(c, d, n)\n",
-		"returns":       "---@return number, string\nlocal function r2() return 1 end\nlocal function r0() return end\nlocal function never() return 1, 2, 3 end\nlocal a, b, c = r2()\nlocal d = r0()\nprint(a, b, c, d)\n",
-		"binops":        "---@type number\nlocal n = 1\n---@type string\nlocal s = \"a\"\n---@type table\nlocal t = {}\nprint(n + s, s .. t, t < n, -s, #n, n == s, n and t, not t)\n",
-		"cross_calls":   "local m = require(\"fx2\")\nm.go(1, 2)\nm.go()\nglobalfn(1)\nglobalfn(\"a\", \"b\")\n",
+		"calls_plain":  "local function add(a, b) return a + b end\nadd(1, 2)\nadd(3, 4)\nprint(add(5, 6), add)\n",
+		"calls_typed":  "---@param a number\n---@param b string\n---@return number\nlocal function f(a, b) return a end\nf(1, \"x\")\nf(\"x\", 1)\nf(1)\nf(1, 2, 3)\nlocal r = f(nil, nil)\nprint(r)\n",
+		"calls_method": "local t = {}\n---@param n number\nfunction t:m(n) return n end\nfunction t.s(a, b) return a, b end\nt:m(1)\nt:m(\"s\")\nt.s(t, 1)\nt.s()\nprint(t:m(2))\n",
+		"class_fields": "---@class P\n---@field x number\n---@field name string\n\n---@type P\nlocal p = { x = 1, y = 2, name = 3 }\np.x = \"s\"\np.z = 1\n---@type P\nlocal q = {}\nq.name = p.x\nprint(p, q)\n",
+		"const_assign": "local c <const> = 1\nc = 2\nlocal d <close> = nil\nd = c\n---@type number\nlocal n = 1\nn = \"s\"\nn = {}\nn = nil\nprint(c, d, n)\n",
+		"returns":      "---@return number, string\nlocal function r2() return 1 end\nlocal function r0() return end\nlocal function never() return 1, 2, 3 end\nlocal a, b, c = r2()\nlocal d = r0()\nprint(a, b, c, d)\n",
+		"binops":       "---@type number\nlocal n = 1\n---@type string\nlocal s = \"a\"\n---@type table\nlocal t = {}\nprint(n + s, s .. t, t < n, -s, #n, n == s, n and t, not t)\n",
+		"cross_calls":  "local m = require(\"fx2\")\nm.go(1, 2)\nm.go()\nglobalfn(1)\nglobalfn(\"a\", \"b\")\n",
 	}
 	optin["field_vs_method"] = "---@class P\n---@field m number\n---@field n fun(a: number): string\n\n---@type P\nObj = {}\nfunction Obj:m(a) return a end\nfunction Obj.n(a) return a end\nObj:m(1)\nprint(Obj.n(2))\n"
 	// with an entry file configured the project pass runs as well (ProjectFiles)
